@@ -20,7 +20,11 @@ PROP = {
                'history search length 4 / 6, straight-line 8 / 10, plus every one- and two-byte text and fcppt::io::get/peek on all 256 byte '
                'values (pairs) and all wchar_t values below 0x20000; parse stream built after 1 or 2 istream::get() calls: history search '
                'length 4 / 5, straight-line 8 / 10; faults: texts up to length 5 / 7, one '
-               'fault per run; error texts: texts up to length 4 / 6; no random longer texts (nothing is sampled)',
+               'fault per run; error texts: all texts up to length 4 / 6, plus the offending character at every line L and column C with L + C <= 13 (every '
+               'location reachable within 12 characters; text = L-1 newlines, C-1 times a, the offending letter), plus reported line x column over '
+               'the lattice {1,2,9,10,11,19,20,99,100,101,109,110,111,999,1000,1001,1099,1100,9999,10000,65535,65536}^2; straight_long: '
+               'texts (a^k newline)^(l-1) a^(c-1) for l, c over the same lattice (k = 0; k = 1 against small c and on the diagonal) with a '
+               'linear read / rewind-to-boundaries / re-read schedule; no random longer texts (nothing is sampled)',
  'binaries': [{'name': 'C12',
                'sources': ['harness/C12.cpp', 'harness/C12_straight.cpp', 'harness/C12_fault.cpp', 'harness/C12_errtext.cpp'],
                'libs': ['core'],
@@ -38,7 +42,11 @@ PROP = {
          'forever, read throws, seek returns -1, seek throws}, k) for every k the script reaches, plus the fault-free run; non-trivial '
          'when a fault is injected. errtext: one case per (text, offset, literal c or non-empty subset S of the alphabet, entry point in '
          '{parser.parse, parse(), skipper::run, phrase_parse(char_, skipper)}); non-trivial when the character at the offset does not '
-         'match, i.e. an "Expected ..., got ..." text is produced',
+         'match, i.e. an "Expected ..., got ..." text is produced. errgrid: same case shape as errtext for the texts newline^(L-1) a^(C-1) X, '
+         'X each letter, every literal/set not containing X, every entry point (always non-trivial). errloc(l, c, fill): one case per '
+         'reported location, 8 located messages (literal, char_set, skipper literal, skipper char_set x 2 entry points) plus operator<< '
+         'of location; non-trivial when a number has more than one digit. straight_long(l, c, k): one case per text; non-trivial when '
+         'a counter passes 255',
  'assumptions': ['the model is the documentation of fcppt::parse::basic_stream: index i, line = 1 + newlines among a_1..a_i, column = i - j + 1',
                  'a parse stream built on a std stream from which characters were already read: the documentation does not say what the '
                  'offset of its positions counts from, so the offset value is not examined there; enforced are rewind/re-read equality, '
@@ -54,6 +62,11 @@ PROP = {
                  'error texts: "Line l:c: Expected " prefix with the location right after the offending character and ", got <char>" suffix are '
                  'compared exactly; the middle must be the character for literal and must name every element for char_set (unordered set); '
                  'end of input gives the documented text "EOF"',
+                 'located messages: the numbers are read back from the text (plain decimal) and compared as integers with the model, and '
+                 'the text is compared with the std::to_string rendering; only literal, char_set, skipper::literal and skipper::char_set print '
+                 'a location (they are the only users of detail::expected); beyond text length 6 the error texts are enumerated over the '
+                 'structured family (runs of newlines and of a) because the location in the message depends on the text only through the '
+                 'stream position, which the straight-line pass checks for every text up to length 12',
                  'std::basic_istringstream / std::basic_istream of libstdc++ are the trusted underlying streams; the custom streambuf is '
                  'unbuffered (one uflow per get)',
                  'random longer texts of the quantifier are not run (no sampling); the exhaustive bound 12 of the quantifier is reached by the '
